@@ -45,7 +45,7 @@ Qed.
 Lemma case_ok_parts c : case_okb c = true ->
   forallb goodb (c_vals c) = true /\ XEdit.kind_ok (c_kind c) /\ args_okb c = true.
 Proof.
-  unfold case_okb. rewrite !andb_true_iff. intros [[Hv Hk] Ha].
+  unfold case_okb. rewrite !andb_true_iff. intros [[[Hv Hk] Ha] _].
   split; [exact Hv|]. split; [apply kind_okb_ok; exact Hk|exact Ha].
 Qed.
 
